@@ -79,6 +79,8 @@ class Slice:
         if isinstance(node, ast.BinOp):
             if type(node.op) in BIN:
                 return f'({self.arith(node.left, env)} {BIN[type(node.op)]} {self.arith(node.right, env)})'
+            if isinstance(node.op, ast.FloorDiv):
+                return f'(((({self.arith(node.left, env)}) / ({self.arith(node.right, env)})).floor : Int) : Rat)'
             if isinstance(node.op, ast.Pow) and isinstance(node.right, ast.Constant) and isinstance(node.right.value, int) and node.right.value >= 0:
                 return f'({self.arith(node.left, env)} ^ {node.right.value})'
             raise Untranslatable(f'operator {type(node.op).__name__}')
@@ -96,6 +98,13 @@ class Slice:
                 return self.arith(node.args[0], env)
             if fn == 'np.mod' and len(node.args) == 2 and isinstance(node.args[1], ast.Constant) and node.args[1].value == 1:
                 return f'(G.wrap {self.arith(node.args[0], env)})'
+            if fn == 'np.where' and len(node.args) == 3:
+                return (f'(if {self.arith(node.args[0], env)} then {self.arith(node.args[1], env)} '
+                        f'else {self.arith(node.args[2], env)})')
+            if fn in ('np.round', 'np.around', 'np.rint') and len(node.args) == 1:
+                return f'((G.rne {self.arith(node.args[0], env)} : Int) : Rat)'
+            if fn == 'int' and len(node.args) == 1:
+                return f'(G.truncZ {self.arith(node.args[0], env)})'
             if fn in ('ceil', 'math.ceil', 'np.ceil') and len(node.args) == 1:
                 return f'(G.ceilZ {self.arith(node.args[0], env)})'
             if fn == 'np.nan_to_num' and len(node.args) == 1:
@@ -258,7 +267,7 @@ def slice_c08():
                          doc='volume.py Volume.frac_coords_to_voxel, per axis (`astype(int)` truncates toward zero)')
     c, _ = straight_line('volume.py', 'Volume.voxel_size', 'voxelSize', ['length', 'dims'],
                          opaque={'np.array(self.lattice.lengths)': 'length', 'self.dims': 'dims'}, doc='volume.py Volume.voxel_size, per axis')
-    return HEADER + a + '\n' + b + '\n' + c + '\nend G.Gen\n'
+    return HEADER + a + '\n' + b + '\n' + c + '\n' + slice_c08b() + '\nend G.Gen\n'
 
 
 def slice_c09():
@@ -587,9 +596,87 @@ def slice_c11():
     return HEADER + out + '\nend G.Gen\n'
 
 
+def slice_c08b():
+    tree = ast.parse((REPO_SRC / 'volume.py').read_text())
+    fn = find_function(tree, 'trajectory_to_volume')
+    outs, names = [], ['nx', 'ny', 'nz']
+    exprs = []
+    for k, nm in enumerate(names):
+        val = next((n.value for n in fn.body if isinstance(n, ast.Assign) and ast.unparse(n.targets[0]) == nm), None)
+        if val is None:
+            raise Untranslatable(f'{nm} not assigned')
+        sl = Slice(['length', 'resolution'], {f'lattice.lengths[{k}]': 'length'})
+        exprs.append(sl.arith(val, {}))
+    if len(set(exprs)) != 1:
+        raise Untranslatable('the three axes compute their number of bin edges differently')
+    out = ('/-- volume.py trajectory_to_volume: number of bin EDGES along an axis of length `length` (the grid has one voxel less) -/\n'
+           f'def nEdges (length resolution : Rat) : Int :=\n  {exprs[0]}\n\n')
+    bins = [assigned_text(fn, b) for b in ('xbins', 'ybins', 'zbins')]
+    lim = {ast.unparse(n) for n in fn.body if isinstance(n, ast.Assign) and len(n.targets) > 1}
+    out += flag('edgesAreUniformDropFirst', bins == [['np.linspace(x0, x1, nx)[1:]'], ['np.linspace(y0, y1, ny)[1:]'], ['np.linspace(z0, z1, nz)[1:]']]
+                and lim == {'x0 = y0 = z0 = 0', 'x1 = y1 = z1 = 1'},
+                'the bin edges along each axis are `np.linspace(0, 1, n)[1:]`: k/(n-1) for k = 1 … n-1')
+    dig = assigned_text(fn, 'digitized_coords')
+    want = ('np.vstack([np.digitize(coords[:, 0], bins=xbins), np.digitize(coords[:, 1], bins=ybins), np.digitize(coords[:, 2], bins=zbins)]).T')
+    out += '\n' + flag('indicesAreDigitize', dig == [want], 'voxel indices are `np.digitize(coordinate, edges)` per axis (right-open bins), no dtype conversion')
+    data = assigned_text(fn, 'data')
+    cnt = [ast.unparse(n) for n in fn.body if isinstance(n, ast.Assign) and ast.unparse(n.targets[0]) in ('(indices, counts)', 'data[i, j, k]', '(i, j, k)')]
+    out += '\n' + flag('countsAreUniqueRows', data == ['np.zeros((nx - 1, ny - 1, nz - 1), dtype=int)'] and cnt == [
+        'indices, counts = np.unique(digitized_coords, return_counts=True, axis=0)', 'i, j, k = indices.T', 'data[i, j, k] = counts'],
+        'the grid has (nx-1, ny-1, nz-1) voxels and receives the multiplicity of every distinct index triple')
+    pos = assigned_text(fn, 'coords')
+    out += '\n' + flag('samplesAreAllPositions', pos == ['trajectory.positions.reshape(-1, 3)'], 'every atom position of every frame is a sample')
+    return out
+
+
+def slice_c17():
+    tree = ast.parse((REPO_SRC / 'shape.py').read_text())
+    fn = next((n for n in ast.walk(tree) if isinstance(n, ast.FunctionDef) and n.name == 'find_equivalent_positions'), None)
+    if fn is None:
+        raise Untranslatable('find_equivalent_positions not found')
+    loop = next((n for n in fn.body if isinstance(n, ast.For) and ast.unparse(n.iter) == 'spacegroup'), None)
+    if loop is None:
+        raise Untranslatable('`for op in spacegroup` not found')
+    aug = next((n for n in loop.body if isinstance(n, ast.AugAssign) and ast.unparse(n.target) == 'close'), None)
+    if aug is None or type(aug.op) not in BIN:
+        raise Untranslatable('re-imaging statement `close <op>= …` not found')
+    sl = Slice(['close', 'sym_coords'])
+    re_ = f'(close {BIN[type(aug.op)]} {sl.arith(aug.value, {})})'
+    selv = next((n.value for n in loop.body if isinstance(n, ast.Assign) and ast.unparse(n.targets[0]) == 'sel'), None)
+    if selv is None:
+        raise Untranslatable('`sel = …` not found')
+    sl2 = Slice(['dists', 'radius'])
+    sel = sl2.arith(selv, {})
+    out = ('/-- shape.py find_equivalent_positions, per coordinate: move a selected position by whole cells next to the symmetry image of the site -/\n'
+           f'def reimage (close sym_coords : Rat) : Rat :=\n  {re_}\n'
+           '\n/-- … and which positions are selected (distance to the image of the site vs the radius) -/\n'
+           f'def selected (dists radius : Rat) : Bool :=\n  decide {sel}\n\n')
+    order = [ast.unparse(n)[:60] for n in loop.body]
+    out += flag('stepsInOrder', [ast.unparse(n) for n in loop.body] == [
+        'sym_coords = op.operate(site_coords)', 'dists = lattice.get_all_distances(sym_coords, positions)', 'sel = dists < radius',
+        'close = positions[sel.flatten()]', 'close -= np.round(close - sym_coords)', 'inversed = op.inverse.operate_multi(close)', 'cluster.append(inversed)'],
+        'per operation: image of the site, minimum-image distances to all positions, selection, re-imaging, INVERSE operation, collection')
+    cen = assigned_text(fn, 'centered')
+    out += '\n' + flag('centredOnSite', cen == ['np.vstack(cluster) - site_coords'], 'the collected points are centred on the site itself')
+    return HEADER + out + '\nend G.Gen\n'
+
+
+def slice_c18():
+    d, _ = straight_line('orientations.py', 'Orientations._fractional_directions', 'fracDirection', ['sat', 'cent'],
+                         opaque={}, inputs={'sat', 'cent'},
+                         doc='orientations.py Orientations._fractional_directions, per coordinate: `sat`, `cent` wrapped fractional coordinates of satellite and centre')
+    tree = ast.parse((REPO_SRC / 'orientations.py').read_text())
+    fn = find_function(tree, 'Orientations._fractional_directions')
+    f = flag('directionsFromWrappedPositions', assigned_text(fn, 'frac_coord_cent') == ['self._trajectory_cent.positions']
+             and assigned_text(fn, 'frac_coord_sat') == ['self._trajectory_sat.positions']
+             and assigned_text(fn, 'sat') == ['frac_coord_sat[:, combinations[:, 1], :]'] and assigned_text(fn, 'cent') == ['frac_coord_cent[:, combinations[:, 0], :]'],
+             'satellite / centre coordinates are the wrapped positions of every frame, paired by the bond table')
+    return HEADER + d + '\n' + f + '\nend G.Gen\n'
+
+
 SLICES = {'FormulasC01': slice_c01, 'FormulasC02': slice_c02, 'FormulasC05': slice_c05, 'FormulasC08': slice_c08,
           'FormulasC09': slice_c09, 'FormulasC10': slice_c10, 'FormulasC11': slice_c11, 'FormulasC12': slice_c12,
-          'FormulasC14': slice_c14, 'FormulasC19': slice_c19}
+          'FormulasC14': slice_c14, 'FormulasC17': slice_c17, 'FormulasC18': slice_c18, 'FormulasC19': slice_c19}
 
 
 def render(name):
